@@ -93,9 +93,12 @@ def default_src(src, kind):
         return "6" if valid else "0"
     if fam == "float":
         return "6.0" if valid else "0.0"
+    custom = any(v["w"] == "with" for b in src["blocks"] for v in b["val"])
+    pred = any(v["w"] == "predicate" for b in src["blocks"] for v in b["val"])
     if fam == "string":
-        return '"abc"' if valid else '""'
-    return "vec![1]" if valid else "vec![]"
+        # the catalogue predicate rejects length 3, the custom validator and not_empty reject the empty string
+        return '"ab"' if valid else ('"xyz"' if pred and not custom else '""')
+    return "vec![1]" if valid else ("vec![0, 0, 0]" if pred and not custom else "vec![]")
 
 
 NOSTD_PRELUDE = "#![allow(unused, non_snake_case, non_camel_case_types, dead_code, clippy::all)]\nuse nutype::nutype;\nuse alloc::vec;\nuse alloc::vec::Vec;\nuse alloc::string::String;\n"
